@@ -6,11 +6,15 @@
       from a previous parent;
     * `set_children` detaches the old children, then moves each new child out of its previous parent
       (`remove_child(..).unwrap()`), then overwrites the list;
-    * `remove` uses `retain` on the parent's list, orphans the children and leaves `node_context_data` alone;
+    * `remove` uses `retain` on the parent's list, marks the former parent dirty (the `Index` panic site of `mark_dirty`),
+      orphans the children and leaves `node_context_data` alone;
     * `clear` leaves `node_context_data` alone.
   Every panic site (slot-map `Index`/`IndexMut` of a dead key, `unwrap`, `Vec::drain` range check) is an explicit
   `panic` outcome; after a `panic` the returned state is the torn state at the panic site.
   `TaffyError::ChildIndexOutOfBounds` is an explicit `err` outcome.
+
+  Tie: every method below is proved equal, on every state and argument, to the statement-by-statement translation of its Rust
+  body that `tvextract` regenerates on every run (`Generated/TreeOps.lean`, `Props/TieTree.lean`), besides the differential run (C14).
 
   Scope notes.
   * `NodeData` is reduced to `has_context`; style, layouts and the cache are not structural. `mark_dirty(n)` is modelled
@@ -152,24 +156,32 @@ def retainInParent (t : Tree) (par : Option Id) (node : Id) : Tree :=
     | none => t
   | none => t
 
+/-- `self.mark_dirty(parent)?` as the last statement of `if let Some(parent) = self.parents[key] { … }` in `remove`
+    (`false` = the `Index` panic of `mark_dirty`; no call when the node has no parent) -/
+def markDirtyOpt (t : Tree) : Option Id → Bool
+  | some parent => markDirty t parent
+  | none => true
+
 /-- `remove` -/
 def remove (t : Tree) (node : Id) : Tree × Out :=
   match t.parents.get node with
   | none => (t, .panic)
   | some par =>
     let t := retainInParent t par node
-    -- if let Some(children) = self.children.get(key) { for child in children { self.parents[child] = None } }
-    let r : Tree × Bool :=
-      match t.children.get node with
-      | some l =>
-        match setParents t.parents none l with
-        | (parents, b) => ({ t with parents }, b)
-      | none => (t, true)
-    match r with
-    | (t, false) => (t, .panic)
-    | (t, true) =>
-      ({ t with children := (t.children.remove node).1, parents := (t.parents.remove node).1,
-                nodes := (t.nodes.remove node).1 }, .ok (.id node))
+    if markDirtyOpt t par then
+      -- if let Some(children) = self.children.get(key) { for child in children { self.parents[child] = None } }
+      let r : Tree × Bool :=
+        match t.children.get node with
+        | some l =>
+          match setParents t.parents none l with
+          | (parents, b) => ({ t with parents }, b)
+        | none => (t, true)
+      match r with
+      | (t, false) => (t, .panic)
+      | (t, true) =>
+        ({ t with children := (t.children.remove node).1, parents := (t.parents.remove node).1,
+                  nodes := (t.nodes.remove node).1 }, .ok (.id node))
+    else (t, .panic)
 
 /-- `set_node_context` -/
 def setNodeContext (t : Tree) (node : Id) (x : Option Nat) : Tree × Out :=
